@@ -190,6 +190,9 @@ def run_bounded(rep, quick):
         '`|` (nested both ways, repeated idempotent passes), lists, TransformerComposition, apply_transformers(composition), cleanup light/heavy; '
         'same circuit space as C03: (a) all circuits with <=2 inputs and <=2 gates (quick: reduced alphabet for 2 gates; thorough: all 18 types, '
         'arity 2..3, plus 2 inputs x 3 gates reduced), several output lists, (b) seeded random circuits <=4 inputs, <=8 (quick) / <=10 (thorough) '
-        'gates incl. neg-only and buffer-only families; one evaluation = one (circuit, pass or pipeline) pair',
-        'K<=2 exhaustive (reduced alphabet in quick); random K<=8 (quick) / K<=10 (thorough)', exhaustive=False)
+        'gates incl. neg-only, buffer-only and parity-with-repeated-operands families, (c) the targeted family of C03: every n-ary type T with '
+        'T(x,x,y), T(x,y), T(x,y,y), T(y,x), T(x,y,x), ... side by side and T(G1,G2,c) over two duplicate gates G1, G2 (multiset comparison of the '
+        'operands in no-duplicates matters exactly here); one evaluation = one (circuit, pass or pipeline) pair',
+        'K<=2 exhaustive (reduced alphabet in quick); repeated-operand family 504 (quick) / 1296 (thorough) circuits of 5-9 gates; '
+        'random K<=8 (quick) / K<=10 (thorough)', exhaustive=False)
     C.run_chunks(rep, NAME, quick, 'C18', check)
